@@ -102,3 +102,98 @@ Qed.
 (* `*` alone matches every name; used by the non-vacuity examples *)
 Lemma glob_star_all : forall s, glob_match [STAR] s = true.
 Proof. intro s. apply glob_match_iff. rewrite <- (app_nil_r s). apply G_star. constructor. Qed.
+
+(* ================= character classes ================= *)
+Definition simple_tok (c : Z) : gtoken := if c =? STAR then GStar else if c =? QMARK then GAny else GLit c.
+
+Lemma gtokenize_f_no_bracket : forall k p, (length p <= k)%nat -> no_bracket p = true ->
+  gtokenize_f k p = map simple_tok p.
+Proof.
+  induction k as [|k IH]; intros p Hl Hn.
+  - destruct p; [reflexivity | cbn in Hl; lia].
+  - destruct p as [|c r]; [reflexivity|]. cbn [gtokenize_f map]. unfold no_bracket in Hn. cbn [forallb] in Hn.
+    apply andb_true_iff in Hn. destruct Hn as [Hc Hr]. apply negb_true_iff in Hc.
+    assert (Hk : (length r <= k)%nat) by (cbn in Hl; lia).
+    unfold simple_tok at 1. destruct (c =? STAR); [f_equal; apply IH; assumption|].
+    destruct (c =? QMARK); [f_equal; apply IH; assumption|].
+    rewrite Hc. f_equal. apply IH; assumption.
+Qed.
+
+Fixpoint gstar_loop (ts : list gtoken) (s : list Z) : bool :=
+  gtok_match ts s || match s with [] => false | _ :: s' => gstar_loop ts s' end.
+
+Lemma gtok_match_star : forall ts s, gtok_match (GStar :: ts) s = gstar_loop ts s.
+Proof.
+  intros ts s. cbn [gtok_match]. induction s as [|d s IH]; cbn [gstar_loop]; [reflexivity|]. rewrite <- IH. reflexivity.
+Qed.
+
+Lemma gtok_match_one : forall t ts s, t <> GStar ->
+  gtok_match (t :: ts) s = match s with [] => false | d :: s' => gtok_ok t d && gtok_match ts s' end.
+Proof. intros t ts s Ht. destruct t; [contradiction | reflexivity | reflexivity | reflexivity]. Qed.
+
+Lemma gtok_match_simple : forall p s, gtok_match (map simple_tok p) s = glob_match p s.
+Proof.
+  induction p as [|c p IH]; intro s; [reflexivity|]. cbn [map]. unfold simple_tok at 1.
+  destruct (c =? STAR) eqn:E.
+  - apply Z.eqb_eq in E. subst c. rewrite gtok_match_star, glob_match_star.
+    induction s as [|d s IHs]; cbn [gstar_loop star_loop]; rewrite IH; [reflexivity | rewrite IHs; reflexivity].
+  - assert (Hc : c <> STAR) by (intro Ec; subst; rewrite Z.eqb_refl in E; discriminate).
+    rewrite glob_match_cons by exact Hc. destruct (c =? QMARK) eqn:Eq.
+    + rewrite gtok_match_one by discriminate. destruct s as [|d s]; [reflexivity|]. cbn. rewrite IH. reflexivity.
+    + rewrite gtok_match_one by discriminate. destruct s as [|d s]; [reflexivity|]. cbn. rewrite IH. reflexivity.
+Qed.
+
+(* on patterns without `[` the class-aware matcher is the plain one *)
+Lemma glob_cls_agrees : forall p s, no_bracket p = true -> glob_match_cls p s = glob_match p s.
+Proof.
+  intros p s H. unfold glob_match_cls, gtokenize. rewrite gtokenize_f_no_bracket by (try lia; exact H).
+  apply gtok_match_simple.
+Qed.
+
+Lemma gstar_loop_true : forall ts s, gstar_loop ts s = true <-> exists s1 s2, s = s1 ++ s2 /\ gtok_match ts s2 = true.
+Proof.
+  intros ts. induction s as [|d s IH]; cbn [gstar_loop].
+  - rewrite orb_false_r. split.
+    + intro H. exists [], []. split; [reflexivity | exact H].
+    + intros (s1 & s2 & E & H). symmetry in E. apply app_eq_nil in E. destruct E; subst. exact H.
+  - rewrite orb_true_iff, IH. split.
+    + intros [H | (s1 & s2 & E & H)].
+      * exists [], (d :: s). split; [reflexivity | exact H].
+      * exists (d :: s1), s2. split; [cbn; congruence | exact H].
+    + intros (s1 & s2 & E & H). destruct s1 as [|x s1].
+      * left. cbn in E. subst. exact H.
+      * right. cbn in E. injection E as _ E. exists s1, s2. split; assumption.
+Qed.
+
+Lemma gtok_dec_star : forall t : gtoken, {t = GStar} + {t <> GStar}.
+Proof. intro t. destruct t; [left; reflexivity | right; discriminate | right; discriminate | right; discriminate]. Qed.
+
+Lemma gtok_match_iff : forall ts s, gtok_match ts s = true <-> gtok_rel ts s.
+Proof.
+  induction ts as [|t ts IH]; intro s.
+  - split; intro H; [destruct s; [constructor | discriminate] | inversion H; reflexivity].
+  - destruct (gtok_dec_star t) as [Et | Et].
+    + subst t. rewrite gtok_match_star, gstar_loop_true. split.
+      * intros (s1 & s2 & E & H). subst s. apply GR_star. apply IH. exact H.
+      * intro H. inversion H as [|ts' s1 s2 Hr|t' ts' d s' Hne]; subst; [|contradiction].
+        exists s1, s2. split; [reflexivity | apply IH; exact Hr].
+    + rewrite gtok_match_one by exact Et. split.
+      * intro H. destruct s as [|d s]; [discriminate|]. apply andb_true_iff in H. destruct H as [H1 H2].
+        apply GR_one; [exact Et | exact H1 | apply IH; exact H2].
+      * intro H. inversion H as [|ts' s1 s2 Hr|t' ts' d s' Hne Hok Hr]; subst; [contradiction|].
+        rewrite Hok. cbn. apply IH. exact Hr.
+Qed.
+
+Lemma glob_cls_iff : forall p s, glob_match_cls p s = true <-> gtok_rel (gtokenize p) s.
+Proof. intros p s. apply gtok_match_iff. Qed.
+
+(* a class body without `-` is the set of its characters *)
+Lemma cls_mem_no_dash : forall body d, ~ In DASH body -> (cls_mem body d = true <-> In d body).
+Proof.
+  induction body as [|c1 r1 IH]; intros d Hn; [cbn; split; [discriminate | intros []]|].
+  assert (Hr : ~ In DASH r1) by (intro H; apply Hn; right; exact H).
+  assert (E : cls_mem (c1 :: r1) d = (c1 =? d) || cls_mem r1 d).
+  { cbn [cls_mem]. destruct r1 as [|dash [|c2 r2]]; try reflexivity.
+    destruct (dash =? DASH) eqn:Ed; [|reflexivity]. apply Z.eqb_eq in Ed. subst. exfalso. apply Hr. left. reflexivity. }
+  rewrite E, orb_true_iff, Z.eqb_eq, IH by exact Hr. cbn. reflexivity.
+Qed.
